@@ -74,7 +74,7 @@ func (c05) Rule() string {
 	return "tables from a segment grammar (static words, :name, *wild, RESTCONF word=:name; shared prefixes inside and across segments, " +
 		"static+parameterised siblings, trailing slashes, 1-40 records, shapes pairwise distinct) each with ~14 paths: 70% instantiations of a " +
 		"random record with texts over an alphabet that over-weights : * # = / % and NUL, 15% one-edit mutants, 15% arbitrary bytes; every table's " +
-		"BASE/CHECK and node arrays dumped and run through repr_check; order cases rebuild the same records shuffled; mux cases go through denco.Mux; " +
+		"BASE/CHECK and node arrays dumped and run through repr_check; order cases rebuild the same records shuffled; mux cases go through denco.Mux (one handler per case; half of the paths are requested under every method in a random order and some again at the end: the answer must not depend on earlier requests); " +
 		"enumerated: every byte 0..255 as a whole segment and inside a segment against a fixed table; adversarial tables outside the domain " +
 		"(termination byte / NUL in a key, two keys of one shape, duplicate names). Scheduled by case index, under every seed: 1 case in 10 'verbs' = " +
 		"tables with parameter-free keys that hold ':' or '*' inside a segment (/v1/op:list, /g/a*b; such words also occur in the general segment grammar), " +
@@ -1654,10 +1654,23 @@ func (c05) Gen(r *rand.Rand, tier string, i int) any {
 		if len(in.Pats) == 0 {
 			in.Pats, in.Methods = []Bs{Bs(keys[0])}, []Bs{"GET"}
 		}
+		// history on ONE handler: the answer for (method, path) must not depend on what was asked before. Half of
+		// the paths are requested once under a random method; the others under every method in a random order
+		// (same path, different method: registered, unregistered, lower case), and a few come back at the end
 		paths, origin := c05Paths(r, keys, 10)
-		in.Paths, in.Origin = paths, origin
-		for range paths {
-			in.ReqM = append(in.ReqM, Bs(append(ms, "get", "DELETE")[r.Intn(5)]))
+		all := append(ms, "get", "DELETE")
+		for j, p := range paths {
+			if r.Intn(2) == 0 {
+				in.Paths, in.Origin, in.ReqM = append(in.Paths, p), append(in.Origin, origin[j]), append(in.ReqM, Bs(all[r.Intn(len(all))]))
+				continue
+			}
+			for _, k := range r.Perm(len(all)) {
+				in.Paths, in.Origin, in.ReqM = append(in.Paths, p), append(in.Origin, origin[j]+"+every-method"), append(in.ReqM, Bs(all[k]))
+			}
+		}
+		for n := 0; n < 4 && len(paths) > 0; n++ {
+			j := r.Intn(len(paths))
+			in.Paths, in.Origin, in.ReqM = append(in.Paths, paths[j]), append(in.Origin, origin[j]+"+again"), append(in.ReqM, Bs(ms[r.Intn(len(ms))]))
 		}
 		return in
 	default:
